@@ -52,6 +52,19 @@ class Fn:
         self.file = d["file"]
         self.line = d["line"]
         self.cls = d.get("class")
+        if self.cls and "<" in self.name and "::" in self.name and "(anonymous" not in self.name:
+            # class template instantiation: keep the template arguments (the printed class name drops its own)
+            depth = 0
+            cut = -1
+            for i, ch in enumerate(self.name):
+                if ch == "<":
+                    depth += 1
+                elif ch == ">":
+                    depth -= 1
+                elif ch == ":" and depth == 0 and self.name[i:i + 2] == "::":
+                    cut = i
+            if cut > 0 and not self.name[cut + 2:].startswith("operator"):
+                self.cls = self.name[:cut]
         self.body = d.get("body")
         self.cfg = d.get("cfg")
         self.params = d.get("params", [])
